@@ -189,7 +189,7 @@ func gtStripShare(t *gt) *gt {
 	return gApp(t.s, args...)
 }
 
-const c02Recipes = "bdscauftpw"
+const c02Recipes = "bdscauftpwq"
 
 func genC02Unify(r *rand.Rand, n int, tier string) []string {
 	var out []string
@@ -215,6 +215,45 @@ func genC02Unify(r *rand.Rand, n int, tier string) []string {
 				y2 = y1
 			}
 			x, y = gApp("p", w, w), gApp("p", y1, y2)
+			if r.Intn(3) == 0 {
+				x, y = y, x
+			}
+		}
+		// two (or three) lists with THE SAME first elements and different tails inside one term, against
+		// variables or mutants: with recipe q they are partial lists over one prefix object
+		twin := false
+		if !sharing && r.Intn(10) == 0 {
+			twin, sharing = true, true
+			np := 1 + r.Intn(2)
+			pre := make([]*gt, np)
+			for j := range pre {
+				if r.Intn(4) > 0 {
+					pre[j] = gAtom(pick(r, []string{"a", "b", "c"}))
+				} else {
+					pre[j] = g.term(1)
+				}
+			}
+			nl := 2 + r.Intn(2)
+			ls, vs := make([]*gt, nl), make([]*gt, nl)
+			for j := range ls {
+				var tail *gt
+				switch r.Intn(3) {
+				case 0:
+					tail = gVar(r.Intn(g.nvars))
+				case 1:
+					tail = gList([]*gt{gAtom(pick(r, c02Atoms))}, gAtom("[]"))
+				default:
+					tail = gList([]*gt{gInt(int64(j))}, gVar(r.Intn(g.nvars)))
+				}
+				ls[j] = gList(pre, tail)
+				if r.Intn(3) == 0 {
+					vs[j] = g.mutate(ls[j], 2)
+				} else {
+					vs[j] = gVar(g.nvars + j)
+				}
+			}
+			g.nvars += nl
+			x, y = gApp("tw", ls...), gApp("tw", vs...)
 			if r.Intn(3) == 0 {
 				x, y = y, x
 			}
@@ -286,6 +325,9 @@ func genC02Unify(r *rand.Rand, n int, tier string) []string {
 			return string(b)
 		}
 		rx := rec()
+		if twin {
+			rx = "q"
+		}
 		if strHead {
 			rx = pick(r, []string{"s", "c", "sc", "cs"})
 		}
@@ -294,7 +336,11 @@ func genC02Unify(r *rand.Rand, n int, tier string) []string {
 			// Cn = x, then C0 = y): Resolve has to follow n links; the recipe slot carries n
 			rx = strconv.Itoa(pick(r, []int{3, 60, 600, 1100, 1100, 2600}))
 		}
-		out = append(out, fmt.Sprintf("%s | %s | %s | %s | %s", mode, rx, x, rec(), y))
+		ry := rec()
+		if twin {
+			ry = "q"
+		}
+		out = append(out, fmt.Sprintf("%s | %s | %s | %s | %s", mode, rx, x, ry, y))
 	}
 	return out
 }
@@ -314,6 +360,8 @@ type builder struct {
 	// '$share'(K, T): every occurrence with the same K is THE SAME Go object (a variable bound to the
 	// term by an earlier goal of the query); the abstract term is T
 	shared map[int64]engine.Term
+	// recipe 'q': prefix objects by their elements, shared by BOTH sides of the case
+	prefixes map[string]engine.Term
 }
 
 func (b *builder) variable(n int) engine.Variable {
@@ -456,6 +504,45 @@ func (b *builder) build(t *gt) engine.Term {
 		if r, ok := b.ask(compound("append", pre, suf, l), l); ok {
 			res = r
 		}
+	case 'q': // append(Prefix, Suffix, L) where lists with the same first elements use THE SAME prefix object
+		// (two *partial values over one prefix that differ in their tails only)
+		k := len(elems)
+		if k > 2 {
+			k = 2
+		}
+		chars := true
+		var ks, cs strings.Builder
+		for _, e := range es[:k] {
+			ks.WriteString(e.String() + ";")
+			if e.kind == "atom" && len([]rune(e.s)) == 1 {
+				cs.WriteString(e.s)
+			} else {
+				chars = false
+			}
+		}
+		if b.prefixes != nil {
+			pre, ok := b.prefixes[ks.String()]
+			if !ok {
+				if chars && len(b.prefixes)%2 == 0 {
+					pre = engine.CharList(cs.String())
+				} else {
+					pre = engine.List(elems[:k]...)
+				}
+				b.prefixes[ks.String()] = pre
+			}
+			var suf engine.Term
+			if k == len(elems) {
+				suf = tl
+			} else if proper {
+				suf = engine.List(elems[k:]...)
+			} else {
+				suf = engine.PartialList(tl, elems[k:]...)
+			}
+			l := engine.NewVariable()
+			if r, ok := b.ask(compound("append", pre, suf, l), l); ok {
+				res = r
+			}
+		}
 	case 'u': // L =.. ['.', H, T]
 		rest := tl
 		if len(elems) > 1 {
@@ -565,8 +652,9 @@ func runC02Unify(payload string) string {
 	reps := map[string]bool{}
 	var pre []engine.Term
 	var lvars []engine.Variable
-	bx := &builder{i: i, vars: vars, recipe: recX, reps: reps, head: mode == "h", pre: &pre, lvars: &lvars}
-	by := &builder{i: i, vars: vars, recipe: recY, reps: reps, pre: &pre, lvars: &lvars}
+	prefixes := map[string]engine.Term{}
+	bx := &builder{i: i, vars: vars, recipe: recX, reps: reps, head: mode == "h", pre: &pre, lvars: &lvars, prefixes: prefixes}
+	by := &builder{i: i, vars: vars, recipe: recY, reps: reps, pre: &pre, lvars: &lvars, prefixes: prefixes}
 	if mode == "h" {
 		bx.vars = map[int]engine.Variable{} // clause variables are renamed apart anyway
 	}
@@ -644,6 +732,17 @@ func runC02Unify(payload string) string {
 			return false
 		}
 		out = "ok " + wire(tmpl, env, newVarNamer())
+		// the answer must not depend on having been copied: copy_term/2 and findall/3 return a variant
+		// with the same sharing (variables named by first occurrence give the same text)
+		c := engine.NewVariable()
+		for _, g := range []engine.Term{compound("copy_term", tmpl, c), compound("findall", tmpl, atom("true"), engine.List(c))} {
+			_, _ = engine.Call(&i.VM, g, func(e *engine.Env) *engine.Promise {
+				if cw := "ok " + wire(c, e, newVarNamer()); cw != out {
+					out = "copy-differs " + cw
+				}
+				return engine.Bool(true)
+			}, env).Force(ctxBg())
+		}
 		return false
 	})
 	if err != nil {
